@@ -7,6 +7,9 @@
 //! is freed. It also records whether the drain loop looks at the `more` flag of a CQE before it
 //! re-materialises the key with `ErasedKey::from_raw` (finding F13: it does not).
 //!
+//! Third fact (finding F9): how `Driver::cancel` queues the AsyncCancel SQE — through `self.push_raw(..)`
+//! (submit-and-retry on a full submission queue) or with a bare `squeue.push(..)` that drops it when full.
+//!
 //! Fails closed: a statement that is none of the recognised shapes is an error.
 
 use std::{fmt::Write as _, path::Path};
@@ -44,6 +47,60 @@ impl<'ast> Visit<'ast> for BodyFacts {
         }
         syn::visit::visit_expr_method_call(self, m);
     }
+}
+
+#[derive(Default)]
+struct CancelFacts {
+    async_cancel: bool,
+    push_raw: bool,
+    bare_push: bool,
+}
+
+impl<'ast> Visit<'ast> for CancelFacts {
+    fn visit_expr_call(&mut self, c: &'ast syn::ExprCall) {
+        if squash(&tokens(&c.func)).ends_with("AsyncCancel::new") {
+            self.async_cancel = true;
+        }
+        syn::visit::visit_expr_call(self, c);
+    }
+
+    fn visit_expr_method_call(&mut self, m: &'ast syn::ExprMethodCall) {
+        let recv = squash(&tokens(&m.receiver));
+        if m.method == "push_raw" && recv == "self" {
+            self.push_raw = true;
+        }
+        if m.method == "push" && recv.contains("submission()") {
+            self.bare_push = true;
+        }
+        syn::visit::visit_expr_method_call(self, m);
+    }
+}
+
+/// `impl Driver { pub fn cancel(&mut self, key: ErasedKey) }`
+fn cancel_uses_push_raw(file: &syn::File) -> Res<bool> {
+    for item in &file.items {
+        if let syn::Item::Impl(imp) = item {
+            if imp.trait_.is_none() && squash(&tokens(&*imp.self_ty)) == "Driver" {
+                for it in &imp.items {
+                    if let syn::ImplItem::Fn(f) = it {
+                        if f.sig.ident == "cancel" {
+                            let mut facts = CancelFacts::default();
+                            facts.visit_block(&f.block);
+                            if !facts.async_cancel {
+                                return Err("iour Driver::cancel no longer builds an AsyncCancel entry".into());
+                            }
+                            return match (facts.push_raw, facts.bare_push) {
+                                (true, false) => Ok(true),
+                                (false, true) => Ok(false),
+                                _ => Err("iour Driver::cancel: cannot tell how the AsyncCancel entry is queued".into()),
+                            };
+                        }
+                    }
+                }
+            }
+        }
+    }
+    Err("`impl Driver` with `fn cancel` not found".into())
 }
 
 fn find_drop_body(file: &syn::File) -> Res<&syn::Block> {
@@ -149,6 +206,7 @@ pub fn generate(repo: &Path) -> Res<String> {
         return Err("field `inner` of iour::Driver is no longer ManuallyDrop<IoUring<..>>".into());
     }
     let checks_more = drain_checks_more.unwrap_or(false);
+    let cancel_push_raw = cancel_uses_push_raw(&file)?;
 
     let mut s = header("DriverDrop", &[rel]);
     writeln!(s, "namespace Compio.Gen\n").unwrap();
@@ -163,6 +221,8 @@ pub fn generate(repo: &Path) -> Res<String> {
     .unwrap();
     writeln!(s, "/-- does the CQ drain loop of `fn drop` test `more(flags)` before `ErasedKey::from_raw`? -/").unwrap();
     writeln!(s, "def iourDropDrainChecksMore : Bool := {}\n", checks_more).unwrap();
+    writeln!(s, "/-- does `iour::Driver::cancel` queue the AsyncCancel SQE through `push_raw` (submit-and-retry)? -/").unwrap();
+    writeln!(s, "def iourCancelUsesPushRaw : Bool := {}\n", cancel_push_raw).unwrap();
     writeln!(s, "end Compio.Gen").unwrap();
     Ok(s)
 }
